@@ -327,7 +327,7 @@ type genFrame struct {
 var wireIDs = []int{0, 1, 2, 3, 4, 5, 6, 7, 8, 9, 13, 14, 15, 16, 17, 20, 10, 11, 12, 18, 19, 21, 255}
 
 func hostileBencode(st *simrt.Stream) ([]byte, string) {
-	k := st.Choice(12)
+	k := st.Choice(14)
 	if (k == 2 || k == 3) && !st.Bool(1, 8) {
 		k = 11 // the declared-length allocation is a known finding: sample it, rarely
 	}
@@ -358,6 +358,17 @@ func hostileBencode(st *simrt.Stream) ([]byte, string) {
 		return []byte("d1:md11:ut_metadatai" + strconv.Itoa(st.Choice(100000)-500) + "eee"), "m-out-of-range"
 	case 10:
 		return []byte("d5:added5:abcde7:added.f200:xe"), "bad-compact-lengths"
+	case 12, 13:
+		// well-formed peer lists whose flag strings have another length
+		// (shorter, empty but present, longer)
+		n := 1 + st.Choice(5)
+		unit, key := 6, "added"
+		if k == 13 {
+			unit, key = 18, "added6"
+		}
+		peers := drawBytes(st, unit*n)
+		nf := simrt.Pick(st, n-1, 0, st.Choice(n), n+1+st.Choice(3))
+		return refwire.BEncode(map[string]any{key: peers, key + ".f": drawBytes(st, nf)}), "pex-flags-length"
 	default:
 		return drawBytes(st, st.Choice(64)), "random-bytes"
 	}
